@@ -102,6 +102,10 @@ Definition solve_checked (sa sb : list nat) (a b : qmat) : res qmat :=
   | d :: _ => if negb (d =? n) then Err EEqual else solve a b
   end.
 
+(* no pivot of the elimination is zero (the hypothesis of the solve theorem, Lu_solve.v), evaluated exactly *)
+Definition pivots_okb (a : qmat) : bool :=
+  let '(l, u, o) := lu a in forallb (fun j => negb (Qeq_bool (qget u j j) 0)) (seq 0 (length a)).
+
 (* the defining equation, evaluated exactly *)
 Definition qlist_eqb (x y : list Q) : bool := (length x =? length y) && forallb (fun p => Qeq_bool (fst p) (snd p)) (combine x y).
 Definition residual_ok (a x b : qmat) : bool :=
